@@ -106,6 +106,15 @@ CLAIMED = {
             "batches of distinct names per file; code->spec trace validation for random unicode names.",
             "Trusted: TLC; the letter symbol stands for every character other than quote and slash.",
             "DESIGN.md 3.9, 5/C16"),
+    "C11": ("TLA+ TdmsDaqmx: buffer/stride/offset layout and truncated-chunk rows model-checked; every enumerated "
+            "configuration encoded with random buffer bytes and the values at the specification's positions compared "
+            "with eager/lazy reads, windows, chunk streams and every cut of the final chunk",
+            "Model checking of the position arithmetic (InBounds, TruncOK) plus spec->code conformance on every "
+            "configuration: format-changing and digital-line scalers, 1-2 buffers with padding and differing lengths, "
+            "1-2 channels x 1-2 scalers, multiple chunks, both byte orders; unscaled dict reads, raw_scaler_data, "
+            "scaled reads of the last scaler, all windows, both chunk streams, truncation to complete rows.",
+            "Trusted: TLC, encoder's DAQmx index encoding, independent fixed-width decode at computed positions.",
+            "DESIGN.md 3.8, 5/C11"),
     "C15": ("TLA+ TdmsSegments: byte order is an attribute of the encoding only; TLC enumerates per-segment byte-order "
             "assignments, each file replayed in 4 byte-order variants against the one specification view",
             "Model checking + spec->code conformance: all 2^k per-segment byte-order assignments (k<=2) over "
